@@ -39,6 +39,7 @@ RULE = ("Enumerated part: a single-byte flip at every offset of the relay "
         "bytes, HTTP). Non-trivial: at least one multi-chunk delivery or a "
         "manipulation fired. Distinct: event-log digests among non-trivial "
         "runs.")
+RULE += (' One configuration in four runs two independent sessions (different keys) in one process; fake managers also send 0..3 records in the very turn a connection is selected.')
 LEVEL_TEXT = ("Fault enumeration over corruption points + seeded exploration "
               "of record values and chunkings. Oracle: the records the peer's "
               "manager receives are a prefix of the records handed to "
